@@ -250,8 +250,8 @@ template<class T> static void chk_quat(const InV<T>& in,vf::Ctx& c){
 		auto Z4=mk<T,4,AQ>(in.c,0,in.poison)*A; auto W4=mk<T,4,PQ>(in.c,0,in.poison)*PA; for(int i=0;i<3;i++) if(!agree(Z4[i],W4[i],FORMULA,Sv,c,"vec4*quat-err/bound")) c.fail("quat:vec4*q:component:beyond-rounding-of-largest-term",Z4[i],W4[i]); if(!agree(Z4[3],W4[3],EXACT,0,c,nullptr)) c.fail("quat:vec4*q:w-component:not-identical",Z4[3],W4[3]); }
 	{ bool e1=(A==B), e2=(PA==PB); if(e1!=e2) c.fail("quat:operator==:differs-from-pure",e1,e2); }
 	// compound forms (the SIMD compute_quat_* specialisations are only reached through them)
-	{ auto X=A, Y=PA; X*=in.c[0]; Y*=in.c[0]; cmpq("q*=s",X,Y,EXACT,0,nullptr); } if(in.c[1]!=0){ auto X=A, Y=PA; X/=in.c[1]; Y/=in.c[1]; cmpq("q/=s",X,Y,EXACT,0,nullptr); }
-	{ auto X=A, Y=PA; X+=B; Y+=PB; cmpq("q+=q",X,Y,EXACT,0,nullptr); } { auto X=A, Y=PA; X-=B; Y-=PB; cmpq("q-=q",X,Y,EXACT,0,nullptr); } { auto X=A, Y=PA; X*=B; Y*=PB; cmpq("q*=q",X,Y,FORMULA,S,"quat-mul-err/bound"); }
+	{ auto X=A; auto Y=PA; X*=in.c[0]; Y*=in.c[0]; cmpq("q*=s",X,Y,EXACT,0,nullptr); } if(in.c[1]!=0){ auto X=A; auto Y=PA; X/=in.c[1]; Y/=in.c[1]; cmpq("q/=s",X,Y,EXACT,0,nullptr); }
+	{ auto X=A; auto Y=PA; X+=B; Y+=PB; cmpq("q+=q",X,Y,EXACT,0,nullptr); } { auto X=A; auto Y=PA; X-=B; Y-=PB; cmpq("q-=q",X,Y,EXACT,0,nullptr); } { auto X=A; auto Y=PA; X*=B; Y*=PB; cmpq("q*=q",X,Y,FORMULA,S,"quat-mul-err/bound"); }
 }
 VF_OP(quat_f32, InV<float>, F12_f){ chk_quat<float>(in,c); }
 VF_OP(quat_f64, InV<double>, F12_d){ chk_quat<double>(in,c); }
